@@ -244,6 +244,18 @@ def _prove_instance(obl, case, tier, known_witnesses, timeout_ms=60000):
                     res["lite_vcs"] = res.get("lite_vcs", 0) + 1
             if r == z3.unknown:
                 r = s.check()
+            if r == z3.unknown and "arith_solver" not in budget:
+                # second opinion: z3's legacy arithmetic solver (no nla::core) on the same query; only an `unsat` is taken from it
+                z3.set_param("smt.arith.solver", 2)
+                try:
+                    alt = _solver(min(timeout_ms, 20000))
+                    alt.add(*hyps)
+                    alt.add(z3.Not(g))
+                    if alt.check() == z3.unsat:
+                        r = z3.unsat
+                        res["legacy_vcs"] = res.get("legacy_vcs", 0) + 1
+                finally:
+                    z3.set_param("smt.arith.solver", 6)
             s.set("timeout", timeout_ms)
             if r == z3.sat:
                 # known finding?  ask for a counterexample outside every listed witness predicate
@@ -848,6 +860,12 @@ def _report(prop, tier, seed, obls, results, known, t_start, write_baseline, onl
         "paths_explored": sum(r.get("paths", 0) for r in deductive),
         "solver_s": round(sum(r.get("solver_s", 0) for r in deductive), 3),
         "by_backend": by_kind,
+        "discharge": {"vcs_from_sign_hypotheses_only": sum(r.get("lite_vcs", 0) for r in deductive),
+                      "vcs_by_groebner_fallback": sum(r.get("groebner_vcs", 0) for r in deductive),
+                      "vcs_by_z3_legacy_arithmetic_after_unknown": sum(r.get("legacy_vcs", 0) for r in deductive),
+                      "vcs_by_z3_with_all_hypotheses": sum(r.get("vcs", 0) - r.get("lite_vcs", 0) - r.get("groebner_vcs", 0) - r.get("legacy_vcs", 0) for r in deductive),
+                      "paths_covered_by_parameter_sampling": sum(r.get("cover_by_sampling", 0) for r in deductive),
+                      "tolerance_guard_probes_run_concretely": sum(r.get("guard_probes", 0) for r in deductive)},
         "bounded_obligations": len(bounded),
         "bounded_passed": sum(1 for r in bounded if r.get("verdict") == "bounded-pass"),
         "evaluations": conc_runs,
